@@ -1,7 +1,15 @@
 //! C19 — resampling never invents, loses or unpairs data.
-//! Engine E1 on the index generator: the bounded-integer answers of `alea` are scripted and
-//! enumerated exhaustively (small n) or within a deviation bound of the all-zero script
-//! (n up to 40); jackknife by plain enumeration of every length.
+//! Engine E1, stateless exploration of the generator's answers with *dynamic* request kinds: the
+//! subject is run on a script, the trace says what it asked for (bounded integer, unit float or
+//! raw word), and every alternative answer at every request is explored — exhaustively for small
+//! inputs, within a deviation bound of two base scripts for inputs up to 40 (120) elements. What is
+//! judged on every execution is only what the property states (shape, membership, multiset,
+//! pairing, order of the jackknife); how the subject turns draws into indices is not prescribed.
+//! "Every position equally likely" is decided exactly for small inputs (the law of every output
+//! position by exhaustive enumeration of bounded-integer / unit-float answers with exact masses,
+//! engine `envx`), by construction where the draw structure is the identity selection, and by a
+//! Bernstein-bounded frequency test on real streams for the long inputs.
+use crate::common::envx::{Decl, Explorer};
 use crate::common::{guard, Run};
 use alea::script::{self, Ans, Kind};
 use compute::validation::{bootstrap, jackknife, shuffle, shuffle_two};
@@ -17,258 +25,508 @@ fn labels(n: usize, kind: usize) -> Vec<f64> {
 fn beq(a: &[f64], b: &[f64]) -> bool {
     a.len() == b.len() && a.iter().zip(b).all(|(x, y)| x.to_bits() == y.to_bits())
 }
-
-/// run `f` under the script `answers` (all bounded-integer answers); returns (result, report)
-fn scripted<T>(answers: &[u64], f: impl FnOnce() -> T) -> (Result<T, String>, script::Report) {
-    script::install(answers.iter().map(|&a| Ans::Below(a)).collect(), 64);
-    let r = guard(f);
-    let rep = script::uninstall();
-    (r, rep)
+fn sorted_bits(a: &[f64]) -> Vec<u64> {
+    let mut v: Vec<u64> = a.iter().map(|x| x.to_bits()).collect();
+    v.sort();
+    v
 }
 
-fn check_trace(run: &Run, site: &str, rep: &script::Report, expect_calls: usize, n: usize, desc: &dyn Fn() -> String) -> bool {
-    // every request must be a bounded integer over exactly n values, and exactly the expected number of them
-    if n == 1 && rep.trace.is_empty() {
-        return true; // a single-element input needs no randomness
-    }
-    let bad_kind = rep.trace.iter().find(|k| **k != Kind::Below(n as u64));
-    if let Some(k) = bad_kind {
-        run.violate(&format!("{}/index-range", site), || format!("{}: an index was drawn as {:?}, expected a uniform integer over exactly {} values", desc(), k, n));
-        return false;
-    }
-    if rep.trace.len() != expect_calls || rep.defaults > 0 {
-        run.violate(&format!("{}/draw-count", site), || format!("{}: {} index draws, expected {}", desc(), rep.trace.len(), expect_calls));
-        return false;
-    }
-    true
+// ---- the explorer --------------------------------------------------------------------------------
+
+/// one execution: what was returned, what was asked for, what was answered
+struct Exec<T> {
+    res: Result<T, String>,
+    kinds: Vec<Kind>,
+    used: Vec<Ans>,
+    livelock: bool,
 }
 
-fn bootstrap_case(run: &Run, data: &[f64], r: usize, answers: &[u64], cls: &str) {
+/// draws granted to one scripted execution before the script is given up as one the subject rejects
+/// forever: 64 times what one draw per element and resample, or four per element, would need
+fn budget_for(n: usize, r: usize) -> usize {
+    64 * (n * r + 4 * n) + 4096
+}
+
+/// answer given by a base script to the t-th request of kind k
+type Policy = dyn Fn(usize, Kind) -> Ans + Sync;
+
+fn zero_policy(_t: usize, k: Kind) -> Ans {
+    match k {
+        Kind::Below(_) => Ans::Below(0),
+        Kind::Unit => Ans::Unit(0.0),
+        Kind::Word => Ans::Word(0),
+    }
+}
+/// a fixed non-trivial base script
+fn mixed_policy(t: usize, k: Kind) -> Ans {
+    match k {
+        Kind::Below(m) => Ans::Below(((t * 7 + t / 2) as u64) % m.max(1)),
+        Kind::Unit => Ans::Unit(((t * 37 + 11) % 64) as f64 / 64.0),
+        Kind::Word => Ans::Word((t as u64 + 1).wrapping_mul(0x9E37_79B9_7F4A_7C15)),
+    }
+}
+
+/// run `f` on `prefix`, every later request answered by `policy` (the request kinds are discovered
+/// by running: the script is extended and re-run until no request is left to a default)
+fn run_with<T>(prefix: &[Ans], policy: &Policy, budget: usize, f: &(dyn Fn() -> T + Sync)) -> Exec<T> {
+    let mut script_v = prefix.to_vec();
+    for _round in 0..64 {
+        script::install_with_defaults(script_v.clone(), budget, 0, 0.0);
+        let r = guard(|| f());
+        let rep = script::uninstall();
+        if rep.livelock {
+            return Exec { res: Err(format!("no result after {} draws", budget)), kinds: rep.trace, used: script_v, livelock: true };
+        }
+        if rep.defaults == 0 {
+            script_v.truncate(rep.consumed);
+            return Exec { res: r, kinds: rep.trace, used: script_v, livelock: false };
+        }
+        let mut same_as_default = true;
+        script_v.truncate(rep.consumed);
+        for t in script_v.len()..rep.trace.len() {
+            let a = policy(t, rep.trace[t]);
+            if a != zero_policy(t, rep.trace[t]) {
+                same_as_default = false;
+            }
+            script_v.push(a);
+        }
+        if same_as_default {
+            // the defaults of the seam are the zero policy: this run already is the policy run
+            return Exec { res: r, kinds: rep.trace, used: script_v, livelock: false };
+        }
+    }
+    Exec { res: Err("draw structure did not settle after 64 script extensions".into()), kinds: vec![], used: script_v, livelock: true }
+}
+
+fn alternatives(k: Kind) -> Vec<Ans> {
+    match k {
+        Kind::Below(m) if m <= 48 => (0..m).map(Ans::Below).collect(),
+        Kind::Below(m) => vec![Ans::Below(0), Ans::Below(1), Ans::Below(m / 2), Ans::Below(m - 2), Ans::Below(m - 1)],
+        Kind::Unit => vec![Ans::Unit(0.0), Ans::Unit(0.25), Ans::Unit(0.5), Ans::Unit(0.75), Ans::Unit(1.0 - f64::EPSILON / 2.0)],
+        Kind::Word => vec![Ans::Word(0), Ans::Word(u64::MAX), Ans::Word(1 << 63), Ans::Word(0x5555_5555_5555_5555), Ans::Word(0x0123_4567_89ab_cdef)],
+    }
+}
+
+/// every script within `max_dev` deviations of the policy's script (usize::MAX: every script over
+/// the alternatives), each visited exactly once; `judge` sees every execution
+fn explore<T: Send>(prefix: Vec<Ans>, devs: usize, max_dev: usize, policy: &Policy, budget: usize, f: &(dyn Fn() -> T + Sync), judge: &(dyn Fn(&Exec<T>, usize) + Sync)) {
+    let x = run_with(&prefix, policy, budget, f);
+    judge(&x, devs);
+    if devs >= max_dev || x.livelock {
+        return;
+    }
+    let mut kids: Vec<Vec<Ans>> = Vec::new();
+    for i in prefix.len()..x.used.len().min(x.kinds.len()) {
+        for alt in alternatives(x.kinds[i]) {
+            if alt != x.used[i] {
+                let mut c = x.used[..i].to_vec();
+                c.push(alt);
+                kids.push(c);
+            }
+        }
+    }
+    drop(x);
+    if kids.len() >= 8 && prefix.len() < 6 {
+        kids.into_par_iter().for_each(|c| explore(c, devs + 1, max_dev, policy, budget, f, judge));
+    } else {
+        for c in kids {
+            explore(c, devs + 1, max_dev, policy, budget, f, judge);
+        }
+    }
+}
+
+// ---- judges: only what the property states ----------------------------------------------------------
+
+fn fmt_ans(a: &[Ans]) -> String {
+    let v: Vec<String> = a.iter().take(48).map(|x| match x {
+        Ans::Below(i) => format!("{}", i),
+        Ans::Unit(u) => format!("u{}", u),
+        Ans::Word(w) => format!("w{:#x}", w),
+    }).collect();
+    format!("[{}{}]", v.join(","), if a.len() > 48 { ",…" } else { "" })
+}
+
+/// A fixed script on which the subject keeps asking (a rejection loop that this particular answer
+/// sequence never satisfies) is a probability-zero stream, not a verdict: termination is decided on
+/// the real streams, under a draw watchdog.
+fn gave_up(run: &Run) {
+    run.skip("scripted stream on which the subject keeps drawing (rejection loop never satisfied by this script)");
+    run.regime("script given up");
+}
+
+fn bootstrap_judge(run: &Run, data: &[f64], r: usize, cls: &str, x: &Exec<Vec<Vec<f64>>>, devs: usize) {
     let n = data.len();
     run.case();
     run.tr();
     run.ok();
-    let desc = || format!("bootstrap(data={:?}, {}) with index answers {:?}", data, r, answers);
+    if devs > 0 {
+        run.nontrivial(1);
+    }
     let site = format!("bootstrap/{}", cls);
-    let (res, rep) = scripted(answers, || bootstrap(data, r));
-    match res {
+    let desc = || format!("bootstrap(data={:?}, {}) with generator answers {}", &data[..n.min(24)], r, fmt_ans(&x.used));
+    match &x.res {
+        Err(_) if x.livelock => gave_up(run),
         Err(p) => {
             run.outcome(&(&site, "panic"));
-            run.violate(&format!("{}/panic", site), || format!("{}: panicked: {}", desc(), p))
+            run.violate(&format!("{}/panic", site), || format!("{}: {}", desc(), p));
         }
         Ok(out) => {
-            if !check_trace(run, &site, &rep, n * r, n, &desc) {
-                return;
-            }
             if out.len() != r || out.iter().any(|v| v.len() != n) {
-                run.violate(&format!("{}/shape", site), || format!("{}: returned {} resamples of lengths {:?}", desc(), out.len(), out.iter().map(|v| v.len()).collect::<Vec<_>>()));
+                run.violate(&format!("{}/shape", site), || format!("{}: returned {} resamples of lengths {:?}", desc(), out.len(), out.iter().take(8).map(|v| v.len()).collect::<Vec<_>>()));
                 return;
             }
-            for k in 0..r {
-                let want: Vec<f64> = (0..n).map(|i| data[answers[k * n + i] as usize]).collect();
-                if !beq(&out[k], &want) {
-                    run.outcome(&(&site, "bad"));
-                    run.violate(&format!("{}/selection", site), || format!("{}: resample {} = {:?}, want {:?}", desc(), k, out[k], want));
+            let have: std::collections::HashSet<u64> = data.iter().map(|v| v.to_bits()).collect();
+            for (k, v) in out.iter().enumerate() {
+                if let Some(bad) = v.iter().find(|e| !have.contains(&e.to_bits())) {
+                    run.outcome(&(&site, "foreign"));
+                    run.violate(&format!("{}/foreign-element", site), || format!("{}: resample {} contains {:?}, which is not an element of the data", desc(), k, bad));
                     return;
                 }
             }
-            run.outcome(&(&site, "ok", n.min(5), r.min(3)));
+            // how the indices were drawn (reported, never judged): one bounded integer over exactly n values
+            // per output position, selected through the identity map, is equally likely by construction
+            let identity = x.kinds.len() == n * r
+                && x.kinds.iter().all(|k| *k == Kind::Below(n as u64))
+                && (0..r).all(|k| (0..n).all(|i| matches!(x.used[k * n + i], Ans::Below(a) if data[a as usize].to_bits() == out[k][i].to_bits())));
+            if identity || (n == 1 && x.kinds.is_empty()) {
+                run.regime("bootstrap: identity selection of one uniform index per position");
+            } else {
+                run.regime("bootstrap: other draw structure");
+            }
+            run.outcome(&(&site, "ok", n.min(5), r.min(3), identity));
             run.regime("bootstrap-ok");
         }
     }
 }
 
-fn shuffle_case(run: &Run, data: &[f64], data2: &[f64], answers: &[u64], cls: &str) {
+fn shuffle_judge(run: &Run, data: &[f64], cls: &str, x: &Exec<Vec<f64>>, devs: usize) {
     let n = data.len();
-    let mut perm: Vec<usize> = (0..n).collect();
-    for t in 0..2 * n {
-        perm.swap(answers[2 * t] as usize, answers[2 * t + 1] as usize);
+    run.case();
+    run.tr();
+    run.ok();
+    if devs > 0 {
+        run.nontrivial(1);
     }
-    let want1: Vec<f64> = perm.iter().map(|&i| data[i]).collect();
-    let want2: Vec<f64> = perm.iter().map(|&i| data2[i]).collect();
-    for which in 0..2 {
-        run.case();
-        run.tr();
-        run.ok();
-        let site = format!("{}/{}", if which == 0 { "shuffle" } else { "shuffle_two" }, cls);
-        let desc = || format!("{}(data={:?}{}) with index answers {:?}", if which == 0 { "shuffle" } else { "shuffle_two" }, data, if which == 1 { format!(", {:?}", data2) } else { String::new() }, answers);
-        if which == 0 {
-            let (res, rep) = scripted(answers, || shuffle(data));
-            match res {
-                Err(p) => run.violate(&format!("{}/panic", site), || format!("{}: panicked: {}", desc(), p)),
-                Ok(out) => {
-                    if !check_trace(run, &site, &rep, 4 * n, n, &desc) {
-                        continue;
-                    }
-                    let mut a: Vec<u64> = out.iter().map(|x| x.to_bits()).collect();
-                    let mut b: Vec<u64> = data.iter().map(|x| x.to_bits()).collect();
-                    a.sort();
-                    b.sort();
-                    if a != b {
-                        run.violate(&format!("{}/not-a-permutation", site), || format!("{}: returned {:?}", desc(), out));
-                    } else if !beq(&out, &want1) {
-                        run.violate(&format!("{}/wrong-permutation", site), || format!("{}: returned {:?}, composition of the drawn transpositions gives {:?}", desc(), out, want1));
-                    } else {
-                        run.outcome(&(&site, "ok", perm == (0..n).collect::<Vec<_>>()));
-                        run.regime("shuffle-ok");
-                    }
-                }
-            }
-        } else {
-            let (res, rep) = scripted(answers, || shuffle_two(data, data2));
-            match res {
-                Err(p) => run.violate(&format!("{}/panic", site), || format!("{}: panicked: {}", desc(), p)),
-                Ok((o1, o2)) => {
-                    if !check_trace(run, &site, &rep, 4 * n, n, &desc) {
-                        continue;
-                    }
-                    if !beq(&o1, &want1) || !beq(&o2, &want2) {
-                        // distinguish "unpaired" from "wrong"
-                        let paired = o1.len() == n && o2.len() == n && (0..n).all(|i| (0..n).any(|j| o1[i].to_bits() == data[j].to_bits() && o2[i].to_bits() == data2[j].to_bits()));
-                        let key = if paired { "wrong-permutation" } else { "unpaired" };
-                        run.violate(&format!("{}/{}", site, key), || format!("{}: returned {:?} / {:?}, want {:?} / {:?}", desc(), o1, o2, want1, want2));
-                    } else {
-                        run.outcome(&(&site, "ok"));
-                        run.regime("shuffle_two-ok");
-                    }
+    let site = format!("shuffle/{}", cls);
+    let desc = || format!("shuffle(data={:?}) with generator answers {}", &data[..n.min(24)], fmt_ans(&x.used));
+    match &x.res {
+        Err(_) if x.livelock => gave_up(run),
+        Err(p) => run.violate(&format!("{}/panic", site), || format!("{}: {}", desc(), p)),
+        Ok(out) => {
+            if sorted_bits(out) != sorted_bits(data) {
+                run.outcome(&(&site, "bad"));
+                run.violate(&format!("{}/not-a-permutation", site), || format!("{}: returned {:?}", desc(), &out[..out.len().min(24)]));
+            } else {
+                run.outcome(&(&site, "ok", beq(out, data)));
+                run.regime("shuffle-ok");
+                if !beq(out, data) {
+                    run.regime("shuffle: order changed");
                 }
             }
         }
     }
 }
 
-fn words(base: usize, len: usize, idx: u64) -> Vec<u64> {
-    let mut v = Vec::with_capacity(len);
-    let mut i = idx;
-    for _ in 0..len {
-        v.push(i % base as u64);
-        i /= base as u64;
+fn shuffle_two_judge(run: &Run, d1: &[f64], d2: &[f64], cls: &str, x: &Exec<(Vec<f64>, Vec<f64>)>, devs: usize) {
+    let n = d1.len();
+    run.case();
+    run.tr();
+    run.ok();
+    if devs > 0 {
+        run.nontrivial(1);
     }
-    v
+    let site = format!("shuffle_two/{}", cls);
+    let desc = || format!("shuffle_two({:?}, {:?}) with generator answers {}", &d1[..n.min(24)], &d2[..n.min(24)], fmt_ans(&x.used));
+    match &x.res {
+        Err(_) if x.livelock => gave_up(run),
+        Err(p) => run.violate(&format!("{}/panic", site), || format!("{}: {}", desc(), p)),
+        Ok((o1, o2)) => {
+            if sorted_bits(o1) != sorted_bits(d1) || sorted_bits(o2) != sorted_bits(d2) {
+                run.violate(&format!("{}/not-a-permutation", site), || format!("{}: returned {:?} / {:?}", desc(), &o1[..o1.len().min(24)], &o2[..o2.len().min(24)]));
+                return;
+            }
+            // one common permutation: the multiset of pairs is unchanged
+            let mut pin: Vec<(u64, u64)> = d1.iter().zip(d2).map(|(a, b)| (a.to_bits(), b.to_bits())).collect();
+            let mut pout: Vec<(u64, u64)> = o1.iter().zip(o2).map(|(a, b)| (a.to_bits(), b.to_bits())).collect();
+            pin.sort();
+            pout.sort();
+            if pin != pout {
+                run.outcome(&(&site, "unpaired"));
+                run.violate(&format!("{}/unpaired", site), || format!("{}: returned {:?} / {:?}: the pairs (x_i, y_i) are not those of the input", desc(), &o1[..n.min(24)], &o2[..n.min(24)]));
+            } else {
+                run.outcome(&(&site, "ok", beq(o1, d1)));
+                run.regime("shuffle_two-ok");
+            }
+        }
+    }
+}
+
+// ---- "every position equally likely": exact law of every output position (small inputs) ---------------
+
+fn marginals(run: &Run, n: usize, r: usize) {
+    let data = labels(n, 0);
+    for k in 0..r {
+        for i in 0..n {
+            run.case();
+            run.tr();
+            let d = data.clone();
+            let f = move || {
+                let out = bootstrap(&d, r);
+                out[k][i] - 10.0
+            };
+            // bounded integers: every value; unit floats: split at every jump of the output; raw words
+            // cannot be weighed exactly by this enumeration and leave the case to the frequency test
+            let decl = Decl { max_words: 0, max_units: 4 * n * r, jb: 1, jw: 1, gu: [1, 1, 1, 1], gw: 1, discrete: true };
+            let ex = Explorer::new(&f, decl).explore();
+            if !ex.panics.is_empty() {
+                let (m, s) = &ex.panics[0];
+                run.violate("bootstrap/small-exhaustive/panic", || format!("bootstrap(data={:?}, {}) on answers {}: {}", data, r, fmt_ans(s), m));
+                continue;
+            }
+            if !ex.livelocks.is_empty() || !ex.structure_errors.is_empty() || ex.rejected > 1e-12 || ex.accepted < 0.5 {
+                run.skip("draw structure outside exact enumeration (raw words or unbounded draws): position law left to the frequency test");
+                run.regime("position-law: undecided by enumeration");
+                continue;
+            }
+            run.ok();
+            run.nontrivial(1);
+            let mut mass = vec![0.0f64; n];
+            let mut stray = 0.0;
+            for l in &ex.leaves {
+                let v = l.lo;
+                if l.lo == l.hi && v.fract() == 0.0 && v >= 0.0 && (v as usize) < n {
+                    mass[v as usize] += l.mass / ex.accepted;
+                } else {
+                    stray += l.mass / ex.accepted;
+                }
+            }
+            let worst = mass.iter().map(|m| (m - 1.0 / n as f64).abs()).fold(stray, f64::max);
+            if worst > 1e-9 {
+                run.outcome(&("position-law", "bad"));
+                run.violate("bootstrap/position-not-equally-likely/exact", || format!("bootstrap(data={:?}, {}): output position {} of resample {} takes the data positions with probabilities {:?} (exact enumeration of {} generator-answer paths); each must be 1/{}", data, r, i, k, mass, ex.leaves.len(), n));
+            } else {
+                run.outcome(&("position-law", "ok", n, ex.leaves.len().min(1 << 12)));
+                run.regime("position-law: exactly uniform");
+            }
+        }
+    }
+}
+
+/// Bernstein: P(|X − Np| ≥ t) ≤ 2·exp(−t²/(2(Np(1−p)+t/3))) ≤ alpha_cell
+fn bernstein_t(nn: f64, p: f64, l: f64) -> f64 {
+    let v = nn * p * (1.0 - p);
+    l / 3.0 + (l * l / 9.0 + 2.0 * v * l).sqrt()
+}
+
+/// long inputs on real streams: frequency of every data position among the draws
+fn frequencies(run: &Run) {
+    let ns: Vec<usize> = vec![2, 3, 4, 5, 8, 9, 16, 17, 33, 64, 65, 100, 129, 257, 1000, 1025, 2000];
+    let total = run.tier.pick(1_000_000usize, 8_000_000usize);
+    let seeds = run.tier.pick(100usize, 10_000usize);
+    // cells tested: per n, n label totals and (n ≤ 17) n² position × label cells
+    let cells: f64 = ns.iter().map(|&n| (n + if n <= 17 { n * n } else { 0 }) as f64).sum();
+    let l = (2.0 * cells / 1e-12).ln();
+    run.bound("frequency test", format!("{} draws per length over {} seeds, lengths {:?}, {} cells, Bernstein bound with total false-alarm probability 1e-12", total, seeds, ns, cells));
+    ns.par_iter().for_each(|&n| {
+        let data = labels(n, 0);
+        let per_seed = (total / seeds).max(1);
+        let r = (per_seed + n - 1) / n;
+        let mut tot = vec![0u64; n];
+        let mut pos = vec![0u64; if n <= 17 { n * n } else { 0 }];
+        let mut draws = 0u64;
+        for s in 0..seeds {
+            alea::set_seed((s as u64) * 2 + 1 + (n as u64) * 1_000_003);
+            // termination on real streams: a watchdog of 1000 draws per requested element
+            script::reset_draws();
+            script::set_draw_limit(Some(1000 * (n * r) as u64 + 100_000));
+            let res = guard(|| bootstrap(&data, r));
+            script::set_draw_limit(None);
+            let out = match res {
+                Ok(o) => o,
+                Err(p) => {
+                    let key = if p.contains("livelock") { "bootstrap/real-stream/does-not-terminate" } else { "bootstrap/real-stream/panic" };
+                    run.violate(key, || format!("seed {} n {} resamples {}: {}", s * 2 + 1, n, r, p));
+                    return;
+                }
+            };
+            if out.len() != r || out.iter().any(|v| v.len() != n) {
+                run.violate("bootstrap/real-stream/shape", || format!("n {} resamples {}: {} resamples returned", n, r, out.len()));
+                return;
+            }
+            for v in &out {
+                for (i, e) in v.iter().enumerate() {
+                    let j = e - 10.0;
+                    if !(j >= 0.0 && j < n as f64 && j.fract() == 0.0) {
+                        run.violate("bootstrap/real-stream/foreign-element", || format!("n {}: {:?} is not an element of the data", n, e));
+                        return;
+                    }
+                    tot[j as usize] += 1;
+                    if n <= 17 {
+                        pos[i * n + j as usize] += 1;
+                    }
+                    draws += 1;
+                }
+            }
+        }
+        run.cases(seeds as u64);
+        run.trs(draws);
+        run.oks(seeds as u64);
+        let p = 1.0 / n as f64;
+        let t = bernstein_t(draws as f64, p, l);
+        let mut ok = true;
+        for (j, &c) in tot.iter().enumerate() {
+            if (c as f64 - draws as f64 * p).abs() > t {
+                ok = false;
+                run.violate("bootstrap/position-not-equally-likely/frequencies", || format!("bootstrap of {} elements, {} draws on {} seeded streams: data position {} was drawn {} times, expected {:.1} ± {:.1} (Bernstein, 1e-12 overall); counts {:?}", n, draws, seeds, j, c, draws as f64 * p, t, &tot[..n.min(20)]));
+                break;
+            }
+        }
+        if n <= 17 && ok {
+            let dn = draws as f64 / n as f64;
+            let t2 = bernstein_t(dn, p, l);
+            for i in 0..n {
+                for j in 0..n {
+                    if ok && (pos[i * n + j] as f64 - dn * p).abs() > t2 {
+                        ok = false;
+                        run.violate("bootstrap/position-not-equally-likely/frequencies", || format!("bootstrap of {} elements: output position {} took data position {} in {} of {} draws, expected {:.1} ± {:.1}", n, i, j, pos[i * n + j], dn, dn * p, t2));
+                    }
+                }
+            }
+        }
+        if ok {
+            run.regime("position-frequencies-ok");
+            run.outcome(&("freq", n));
+        }
+    });
 }
 
 pub fn run(run: &Run) {
-    run.rule("bootstrap: all index-answer sequences for (n,resamples) in {(1,1..3),(2,1..3),(3,1..2),(4,1)} and all sequences within ≤2 (n≤12) / ≤1 (n≤40) deviations of the all-zero script for 1..=3 resamples; shuffle/shuffle_two: all 4n answers for n≤3 (3^12), ≤2 deviations for n≤8, ≤1 for n≤40; three label patterns (distinct, repeats, NaN/±0/inf by bits); jackknife for every length 1..=64 (200 thorough); non-trivial = at least one non-zero answer");
-    // ---- bootstrap, exhaustive small ---------------------------------------------------------
+    run.rule("generator answers are explored with dynamic request kinds (bounded integer: every value up to 48, else 5 representatives; unit float and raw word: 5 representatives): bootstrap — every script for (n,resamples) in {(1,1..3),(2,1..3),(3,1..2),(4,1)}, every script within ≤2 (n≤12) / ≤1 (n≤40) deviations of the all-zero and of a mixed base script for 1..=3 resamples, fixed scripts for lengths to 2000 and 200 resamples; shuffle / shuffle_two — every script for n≤3, ≤2 deviations for n≤8, ≤1 for n≤40, fixed scripts to 2000; judged on every execution: shape, membership, multiset, pairing; the law of every output position of bootstrap exactly for n≤5 (6) by enumeration with exact masses, and by a Bernstein-bounded frequency test on seeded streams for 17 lengths to 2000; three label patterns (distinct, repeats, NaN/±0/inf by bits); jackknife for every length 1..=64 (200 thorough); non-trivial = a script with at least one deviation");
+    let zero: &Policy = &zero_policy;
+    let mixed: &Policy = &mixed_policy;
+    // ---- bootstrap, every script on small inputs -------------------------------------------------
     let small: &[(usize, usize)] = &[(1, 1), (1, 2), (1, 3), (2, 1), (2, 2), (2, 3), (3, 1), (3, 2), (4, 1)];
     for &(n, r) in small {
-        let total = (n as u64).pow((n * r) as u32);
-        (0..total).into_par_iter().for_each(|idx| {
-            let ans = words(n, n * r, idx);
-            for kind in 0..3 {
-                bootstrap_case(run, &labels(n, kind), r, &ans, if n == 1 { "length-1" } else { "small-exhaustive" });
-            }
-            if idx != 0 {
-                run.nontrivial(3);
-            }
-        });
+        for kind in 0..3 {
+            let data = labels(n, kind);
+            let d = data.clone();
+            let f = move || bootstrap(&d, r);
+            let cls = if n == 1 { "length-1" } else { "small-exhaustive" };
+            explore(vec![], 0, usize::MAX, zero, budget_for(n, r), &f, &|x, devs| bootstrap_judge(run, &data, r, cls, x, devs));
+        }
     }
-    run.sample(|| "bootstrap(data=[10,11,12], 2) with index answers [2,0,0,1,1,2] must be [[12,10,10],[11,11,12]]".to_string());
-    // ---- bootstrap, deviation-bounded --------------------------------------------------------
+    run.sample(|| "bootstrap(data=[10,11,12], 2): every one of the 3^6 answer scripts of its six bounded-integer requests; each result must be 2 resamples of 3 elements of the data".to_string());
+    // ---- the law of every output position, exactly -------------------------------------------------
+    let amax = run.tier.pick(5usize, 6usize);
+    run.bound("exact position law", format!("n = 1..={} (1 resample), n ≤ 3 also 2 resamples", amax));
+    (1..=amax).into_par_iter().for_each(|n| {
+        marginals(run, n, 1);
+        if n <= 3 {
+            marginals(run, n, 2);
+        }
+    });
+    // ---- bootstrap, deviation-bounded ------------------------------------------------------------
     let nmax = run.tier.pick(40usize, 120usize);
     let n2 = run.tier.pick(12usize, 20usize);
-    run.bound("bootstrap deviations", format!("≤2 deviations for n≤{}, ≤1 for n≤{}, resamples 1..=3", n2, nmax));
+    run.bound("bootstrap deviations", format!("≤2 deviations for n≤{} (≤2 resamples), ≤1 for n≤{}, resamples 1..=3, two base scripts", n2, nmax));
     (2..=nmax).into_par_iter().for_each(|n| {
         for r in 1..=3usize {
-            let len = n * r;
             let data = labels(n, 0);
-            let zero = vec![0u64; len];
-            bootstrap_case(run, &data, r, &zero, "deviation-bounded");
-            for p in 0..len {
-                for v in 1..n as u64 {
-                    let mut a = zero.clone();
-                    a[p] = v;
-                    bootstrap_case(run, &data, r, &a, "deviation-bounded");
-                    run.nontrivial(1);
-                    if n <= n2 && r <= 2 {
-                        for q in (p + 1)..len {
-                            for w in [1u64, n as u64 - 1] {
-                                let mut b = a.clone();
-                                b[q] = w;
-                                bootstrap_case(run, &data, r, &b, "deviation-bounded");
-                                run.nontrivial(1);
-                            }
-                        }
-                    }
-                }
-            }
+            let d = data.clone();
+            let f = move || bootstrap(&d, r);
+            let dev = if n <= n2 && r <= 2 { 2 } else { 1 };
+            explore(vec![], 0, dev, zero, budget_for(n, r), &f, &|x, devs| bootstrap_judge(run, &data, r, "deviation-bounded", x, devs));
+            explore(vec![], 0, 1, mixed, budget_for(n, r), &f, &|x, devs| bootstrap_judge(run, &data, r, "deviation-bounded", x, devs));
         }
     });
-    // ---- shuffle, exhaustive small ------------------------------------------------------------
+    // ---- shuffle, every script on small inputs ------------------------------------------------------
     for n in 1..=3usize {
-        let total = (n as u64).pow(4 * n as u32);
-        (0..total).into_par_iter().for_each(|idx| {
-            let ans = words(n, 4 * n, idx);
-            let kind = (idx % 3) as usize;
+        for kind in 0..3 {
             let d1 = labels(n, kind);
             let d2: Vec<f64> = (0..n).map(|i| 100.0 + i as f64).collect();
-            shuffle_case(run, &d1, &d2, &ans, if n == 1 { "length-1" } else { "small-exhaustive" });
-            if idx != 0 {
-                run.nontrivial(2);
+            let cls = if n == 1 { "length-1" } else { "small-exhaustive" };
+            if kind == 0 || n < 3 {
+                let d = d1.clone();
+                let f = move || shuffle(&d);
+                explore(vec![], 0, usize::MAX, zero, budget_for(n, 1), &f, &|x, devs| shuffle_judge(run, &d1, cls, x, devs));
             }
-        });
-    }
-    run.sample(|| "shuffle_two([10,11,12],[100,101,102]) with answers [0,2, 1,1, 2,1, 0,0, 1,0, 2,2]: both arrays must undergo the same composition of swaps".to_string());
-    let smax = run.tier.pick(40usize, 100usize);
-    let s2 = run.tier.pick(8usize, 12usize);
-    run.bound("shuffle deviations", format!("all answers for n≤3; ≤2 deviations for n≤{}, ≤1 for n≤{}", s2, smax));
-    (2..=smax).into_par_iter().for_each(|n| {
-        let len = 4 * n;
-        let d1 = labels(n, 0);
-        let d2: Vec<f64> = (0..n).map(|i| 100.0 + i as f64).collect();
-        // base script: a fixed non-trivial one (cyclic swaps) and the all-zero one
-        for base in [vec![0u64; len], (0..len).map(|t| ((t * 7 + t / 2) % n) as u64).collect::<Vec<u64>>()] {
-            shuffle_case(run, &d1, &d2, &base, "deviation-bounded");
-            for p in 0..len {
-                for v in 0..n as u64 {
-                    if v == base[p] {
-                        continue;
-                    }
-                    let mut a = base.clone();
-                    a[p] = v;
-                    shuffle_case(run, &d1, &d2, &a, "deviation-bounded");
-                    run.nontrivial(2);
-                    if n <= s2 {
-                        for q in (p + 1)..len {
-                            let w = (base[q] + 1) % n as u64;
-                            let mut b = a.clone();
-                            b[q] = w;
-                            shuffle_case(run, &d1, &d2, &b, "deviation-bounded");
-                            run.nontrivial(2);
-                        }
-                    }
-                }
+            if kind != 0 || n < 3 {
+                let (a, b) = (d1.clone(), d2.clone());
+                let f2 = move || shuffle_two(&a, &b);
+                explore(vec![], 0, usize::MAX, zero, budget_for(n, 1), &f2, &|x, devs| shuffle_two_judge(run, &d1, &d2, cls, x, devs));
             }
         }
+    }
+    {
+        // n = 3 with distinct labels in both arrays (pairing fully determined)
+        let d1 = labels(3, 0);
+        let d2: Vec<f64> = vec![100.0, 101.0, 102.0];
+        let (a, b) = (d1.clone(), d2.clone());
+        let f2 = move || shuffle_two(&a, &b);
+        explore(vec![], 0, run.tier.pick(4, usize::MAX), zero, budget_for(3, 1), &f2, &|x, devs| shuffle_two_judge(run, &d1, &d2, "small-exhaustive", x, devs));
+    }
+    run.sample(|| "shuffle_two([10,11,12],[100,101,102]): every answer script of its requests; both outputs must be permutations and the pairs (x_i,y_i) those of the input".to_string());
+    let smax = run.tier.pick(40usize, 100usize);
+    let s2 = run.tier.pick(8usize, 12usize);
+    run.bound("shuffle deviations", format!("every script for n≤3; ≤2 deviations for n≤{}, ≤1 for n≤{}, two base scripts", s2, smax));
+    (2..=smax).into_par_iter().for_each(|n| {
+        let d1 = labels(n, 0);
+        let d2: Vec<f64> = (0..n).map(|i| 100.0 + i as f64).collect();
+        let dev = if n <= s2 { 2 } else { 1 };
+        let d = d1.clone();
+        let f = move || shuffle(&d);
+        let (a, b) = (d1.clone(), d2.clone());
+        let f2 = move || shuffle_two(&a, &b);
+        for (pol, dv) in [(zero, dev), (mixed, dev)] {
+            explore(vec![], 0, dv, pol, budget_for(n, 1), &f, &|x, devs| shuffle_judge(run, &d1, "deviation-bounded", x, devs));
+            explore(vec![], 0, dv, pol, budget_for(n, 1), &f2, &|x, devs| shuffle_two_judge(run, &d1, &d2, "deviation-bounded", x, devs));
+        }
+        // repeated labels in the first array: pairing is still decided by the second
+        let e1 = labels(n, 1);
+        let (a, b) = (e1.clone(), d2.clone());
+        let f3 = move || shuffle_two(&a, &b);
+        explore(vec![], 0, 1, mixed, budget_for(n, 1), &f3, &|x, devs| shuffle_two_judge(run, &e1, &d2, "deviation-bounded", x, devs));
     });
-    // ---- long inputs (lengths up to 2000, many resamples): structured scripts -----------------------
+    // ---- long inputs (lengths up to 2000, many resamples): fixed scripts ----------------------------
     let longs: Vec<usize> = if run.thorough() { vec![63, 64, 65, 127, 128, 129, 255, 257, 513, 1000, 1024, 1025, 2000] } else { vec![64, 65, 129, 257, 1000, 1025, 2000] };
     longs.par_iter().for_each(|&n| {
         let data = labels(n, 0);
         let d2: Vec<f64> = (0..n).map(|i| 5000.0 + i as f64).collect();
+        let pols: [&Policy; 4] = [
+            &zero_policy,
+            &mixed_policy,
+            &|_t, k| match k {
+                Kind::Below(m) => Ans::Below(m - 1),
+                Kind::Unit => Ans::Unit(1.0 - f64::EPSILON / 2.0),
+                Kind::Word => Ans::Word(u64::MAX),
+            },
+            &|t, k| match k {
+                Kind::Below(m) => Ans::Below((m - 1) - (t as u64 % m)),
+                Kind::Unit => Ans::Unit(1.0 - ((t % 97) as f64 + 0.5) / 97.0),
+                Kind::Word => Ans::Word(!(t as u64).wrapping_mul(0x2545_f491_4f6c_dd1d)),
+            },
+        ];
         for r in [1usize, 3, 200] {
             if r == 200 && n > 300 {
                 continue;
             }
-            for pat in 0..4u64 {
-                let ans: Vec<u64> = (0..n * r).map(|t| match pat {
-                    0 => 0,
-                    1 => n as u64 - 1,
-                    2 => (t as u64 * 7 + 3) % n as u64,
-                    _ => (n as u64 - 1) - (t as u64 % n as u64),
-                }).collect();
-                bootstrap_case(run, &data, r, &ans, "long");
+            let d = data.clone();
+            let f = move || bootstrap(&d, r);
+            for pol in pols {
+                let x = run_with(&[], pol, budget_for(n, r), &f);
+                bootstrap_judge(run, &data, r, "long", &x, 1);
             }
         }
-        for pat in 0..3u64 {
-            let ans: Vec<u64> = (0..4 * n).map(|t| match pat {
-                0 => (t as u64 * 5 + 1) % n as u64,
-                1 => if t % 2 == 0 { n as u64 - 1 } else { (t as u64 / 2) % n as u64 },
-                _ => (t as u64 * t as u64 + 7) % n as u64,
-            }).collect();
-            shuffle_case(run, &data, &d2, &ans, "long");
+        let d = data.clone();
+        let f = move || shuffle(&d);
+        let (a, b) = (data.clone(), d2.clone());
+        let f2 = move || shuffle_two(&a, &b);
+        for pol in pols {
+            let x = run_with(&[], pol, budget_for(n, 1), &f);
+            shuffle_judge(run, &data, "long", &x, 1);
+            let x2 = run_with(&[], pol, budget_for(n, 1), &f2);
+            shuffle_two_judge(run, &data, &d2, "long", &x2, 1);
         }
-        run.nontrivial(24);
     });
     // ---- jackknife ------------------------------------------------------------------------------
     let jmax = run.tier.pick(64usize, 200usize);
@@ -280,7 +538,6 @@ pub fn run(run: &Run) {
             run.tr();
             run.ok();
             run.nontrivial(1);
-            script::reset_draws();
             match guard(|| jackknife(&data)) {
                 Ok(out) => {
                     let good = out.len() == n
@@ -292,41 +549,44 @@ pub fn run(run: &Run) {
                         run.violate("jackknife/wrong", || format!("jackknife of {} labelled values: got {} vectors, first {:?}", n, out.len(), out.get(0)));
                     } else {
                         run.outcome(&("jackknife", n.min(3)));
-                    }
-                    if script::draws() != 0 {
-                        run.violate("jackknife/uses-randomness", || format!("n={}: {} draws", n, script::draws()));
+                        run.regime("jackknife-ok");
                     }
                 }
                 Err(p) => run.violate("jackknife/panic", || format!("n={}: {}", n, p)),
             }
         }
     }
-    // ---- supplementary: real seeded streams (sampled, not deciding) ------------------------------
+    // ---- long inputs, position frequencies on real streams -------------------------------------------
+    frequencies(run);
+    // shuffle on real streams: permutation and pairing for every seed (sampled supplement)
     let nseeds = run.tier.pick(100u64, 10_000u64);
     let mut sampled = 0u64;
     for seed in 0..nseeds {
         alea::set_seed(seed * 2 + 1);
-        for &n in &[2usize, 5, 17] {
+        for &n in &[1usize, 2, 5, 17, 64] {
             let d = labels(n, 0);
+            let d2: Vec<f64> = (0..n).map(|i| 100.0 + i as f64).collect();
             sampled += 2;
-            if let Ok(b) = guard(|| bootstrap(&d, 2)) {
-                if b.len() != 2 || b.iter().any(|v| v.len() != n || v.iter().any(|x| !d.contains(x))) {
-                    run.violate("bootstrap/real-stream", || format!("seed {} n {}: {:?}", seed * 2 + 1, n, b));
+            script::reset_draws();
+            script::set_draw_limit(Some(100_000 * n as u64 + 100_000));
+            let x = Exec { res: guard(|| shuffle(&d)), kinds: vec![], used: vec![], livelock: false };
+            let x2 = Exec { res: guard(|| shuffle_two(&d, &d2)), kinds: vec![], used: vec![], livelock: false };
+            script::set_draw_limit(None);
+            for (name, e) in [("shuffle", x.res.as_ref().err()), ("shuffle_two", x2.res.as_ref().err())] {
+                if let Some(p) = e {
+                    if p.contains("livelock") {
+                        run.violate(&format!("{}/real-stream/does-not-terminate", name), || format!("seed {} n {}: {}", seed * 2 + 1, n, p));
+                    }
                 }
             }
-            if let Ok(s) = guard(|| shuffle(&d)) {
-                let mut t = s.clone();
-                t.sort_by(|a, b| a.partial_cmp(b).unwrap());
-                if t != d {
-                    run.violate("shuffle/real-stream", || format!("seed {} n {}: {:?}", seed * 2 + 1, n, s));
-                }
-            }
+            shuffle_judge(run, &d, "real-stream", &x, 1);
+            shuffle_two_judge(run, &d, &d2, "real-stream", &x2, 1);
         }
     }
-    run.extra("sampled_real_seed_runs", serde_json::json!(sampled));
-    for r in ["bootstrap-ok", "shuffle-ok", "shuffle_two-ok"] {
+    run.extra("sampled_real_seed_shuffles", serde_json::json!(sampled));
+    for r in ["bootstrap-ok", "shuffle-ok", "shuffle: order changed", "shuffle_two-ok", "jackknife-ok", "position-frequencies-ok"] {
         run.require_regime(r);
     }
-    run.assume("the index generator is alea's bounded integer; a position selected by one uniform answer over exactly n values through the identity map is 'equally likely' — the kind and range of every draw is checked");
-    run.assume("the real-seed runs are a sampled supplement and decide nothing");
+    run.assume("what is judged is what the property states; the draw structure (which generator calls, how many) is reported as a regime, not prescribed. 'Equally likely' is exact for n ≤ 5 (6) when the subject draws bounded integers or unit floats (exact masses 1/m, interval lengths); an identity selection of one uniform index per position is equally likely by construction at every length; otherwise and in addition the long lengths are decided by the frequency test");
+    run.assume("the frequency test treats alea's generator as an ideal source; its total false-alarm probability is 1e-12 (Bernstein bound, union over all cells)");
 }
